@@ -34,6 +34,9 @@ REQUIRED_THEOREMS += ["emit_scope_end_spec", "captured_slots_are_closed", "break
 # the models were written against (Props/StateInventory)
 THEOREM_MODULES.append("Yarel.Props.StateInventory")
 REQUIRED_THEOREMS += ['state_of_heap']
+# who writes the state the mechanism models are about: the set of write sites per group of fields, regenerated on every run (Props/StateWrites)
+THEOREM_MODULES.append("Yarel.Props.StateWrites")
+REQUIRED_THEOREMS += ['writers_of_heap_accounting']
 USES_GEN = True
 LEVEL = "proof"
 ASSUMPTIONS = [
